@@ -112,11 +112,21 @@ def c03_effort(spec, obs, sc=0):
         byres = ebt.get(fid, {})
         need = effort_h * 3600.0
         fwd = rec["forward"][sc] is not False
+        team_effs = {eff.get(r, 1.0) or 1.0 for r in byres}
+        mixed = len(byres) > 1 and len(team_effs) > 1 and not t.get("alt")
+        if mixed:
+            # the statement does not say whose efficiency weights the time of a team with unequal members: the
+            # common booked time must equal the effort under the efficiency of at least one member
+            works = [(r, sum(slots.values()) * (eff.get(r, 1.0) or 1.0)) for r, slots in byres.items()]
+            if not any(abs(w - need) <= max(1.0, max(team_effs)) + EPS for _r, w in works):
+                v.append(("effort", f"{fid} (team of unequal efficiencies): booked work per member {works} vs effort {need:.1f}s"))
         for r, slots in byres.items():
             e = eff.get(r, 1.0) or 1.0
             work = sum(q * e for q in slots.values())
-            if abs(work - need) > max(1.0, e) + EPS:
+            if not mixed and abs(work - need) > max(1.0, e) + EPS:
                 v.append(("effort", f"{fid} on {r}: booked work {work:.1f}s (eff {e}) vs effort {need:.1f}s"))
+            if mixed:
+                e = next((ee for ee in sorted(team_effs) if abs(sum(slots.values()) * ee - need) <= max(1.0, ee) + EPS), e)
             # no further slot beyond the one where the sum reaches the effort
             acc = 0.0
             order = sorted(slots) if fwd else sorted(slots, reverse=True)
